@@ -653,6 +653,12 @@ func (s *SecureChannel) open(ctx context.Context, instance *channelInstance, req
 	defer func() {
 		if s.openingInstance == nil || s.openingInstance.state != channelActive {
 			debug.Printf("uasc %d: failed to open a new secure channel", s.c.ID())
+			// The sequence numbers of a failed renewal are used up. The
+			// instance which stays in use carries on after them. The caller
+			// holds its lock.
+			if requestType == ua.SecurityTokenRequestTypeRenew && s.openingInstance != nil {
+				instance.sequenceNumber = s.openingInstance.sequenceNumber
+			}
 		}
 		s.openingInstance = nil
 	}()
